@@ -124,7 +124,7 @@ seed("C05_s1", "C05", "tensor_einsum_reduce_sum: inverse permutation (same as C0
 seed("C05_s2", "C05", "DecayChain.get_m_dep drops the per-event charge of CP-violating chain couplings", "is_cp couplings AND charge -1 events AND a cached / factorised strategy",
      "caught (4 failures) by the is_cp scenario added in the same round; the earlier version had no is_cp configuration and was not run against it", "check strengthened")
 
-# third round (2026-10-01, after the second hunt round; seeders worked on /repo 86e5232): one change per property; all nine were reported at the first attempt
+# third round (2026-10-01, after the second hunt round; seeders worked on /repo 86e5232): one change per property; all fifteen were reported at the first attempt
 seed("C04_t1", "C04", "get_relative_p2 clamps negative q^2 at 0 (nominal q0^2 of the barrier normalisation no longer continued analytically)",
      "a J >= 1 resonance whose nominal mass lies outside the phase space (below the daughters' threshold or beyond the kinematic limit)",
      "caught at the first attempt: 18 failures (layers of the far / sub-threshold plans)")
@@ -146,11 +146,25 @@ seed("C16_t1", "C16", "refresh_vars tests the tf.Variable's trainable flag inste
 seed("C17_t1", "C17", "AbsPDF.temp_params snapshots with VarsManager.get's default val_in_fit=True and restores with val_in_fit=False",
      "a model with bounded parameters (bnd_dic not empty) and any temp_params block or helper built on it", "caught at the first attempt: 212 failures")
 
+seed("C03_t1", "C03", "DecayGroup.set_used_res sets chains_idx directly, the not_full flag is no longer refreshed", "use_tf_function (or no_id_cached) AND fit fractions (a second evaluation on the same data object after set_used_res)",
+     "caught at the first attempt: 31 failures (fit-fraction sum rule and subset tensors of the use_tf_function scenarios)")
+seed("C09_t1", "C09", "trans_error_matrix as einsum 'i,ij,i->ij' (index typo): V_y[i,j] = y'_i^2 V_x[i,j]", "a bounded parameter AND non-zero correlations",
+     "caught at the first attempt: 52 failures (J V J^T tie and fraction errors)")
+seed("C14_t1", "C14", "DecayGroup.topology_structure default identical=False -> True", "identical-particle names AND chains differing by a swap of such particles",
+     "caught at the first attempt: 106 failures (class partition and chains_map of the identical-name groups)")
+seed("C18_t1", "C18", "load_dat_file: one concatenate + reshape for all files instead of the per-file loop", "momenta spread over several files AND more than one event",
+     "caught at the first attempt: 4 failures (multi-file layouts; the failing layout is named in the case, no shrunk input)")
+seed("C20_t1", "C20", "Hist1D.histogram takes the empty-bin mask from the weighted count", "a bin whose weights cancel exactly (or are all zero)",
+     "caught at the first attempt: 4 failures (cancelling-weight histograms)")
+
+seed("C07_t1", "C07", "BaseModel.nll_grad_hessian assembles the integral term like ModelCachedInt (- sw * outer of the normalised gradient), valid for the log form only",
+     "extended: True AND the Hessian", "caught at the first attempt: 11 failures (Hessian entries and H.p of the extended scenarios)")
+
 if __name__ == "__main__":
     lines = ["# Seeded changes (confirmed in a scratch worktree: demo passes clean, fails with the change, pinned tests unchanged)", "",
              "Each patch.diff is relative to the /repo HEAD at the time it was seeded (first round: d64dc15 / 69132ff, second round `_s`: a1f549d, third round `_t`: 86e5232 = final);",
              "C04_m1 was rebased onto the repaired Bprime_q2 (same change of the same statement; the original is kept as patch_original_d64dc15.diff).",
-             "On the final /repo HEAD 64 of the 70 apply with `git -C /repo apply`.  Not applicable any more, because a later repair rewrote the statement",
+             "On the final /repo HEAD 70 of the 76 apply with `git -C /repo apply`.  Not applicable any more, because a later repair rewrote the statement",
              "they change: C03_m2 (FitFractions.append_int), C06_m1 (cfit normalisation), C12_s2 (clip of cos(beta) before acos: the extraction is",
              "2 atan2(|x10|,|x11|) since a129335), C04_m2 and C08_s1 (these two had already stopped manifesting after a1f549d / d8e81e5).  C13_s2 still applies",
              "but no longer manifests: it routed integer-valued FLOAT spins to the JSON table, whose string keys missed them - repair 9ef724b normalises",
